@@ -165,6 +165,8 @@ struct Damage {
     after_obtaining: usize,
     expected: String,
     got: String,
+    /// the change was found after the stream had been dropped, not after a `next()`
+    after_drop: bool,
 }
 
 /// Returns Ok(number of re-reads) or the first damaged item.
@@ -211,6 +213,8 @@ fn execute(case: &Case) -> Result<(usize, bool), Damage> {
             // every yielded item stays alive here - longer than the stream itself
             let mut held: Vec<($ty, String)> = Vec::new();
             let get = $get;
+            #[allow(unused_assignments)]
+            let mut dropped = false;
             macro_rules! reread {
                 () => {
                     for (i, (it, copy)) in held.iter().enumerate() {
@@ -222,7 +226,7 @@ fn execute(case: &Case) -> Result<(usize, bool), Damage> {
                             let mut tmp = [0u8; 64];
                             let k = now.len().min(64);
                             tmp[..k].copy_from_slice(&now.as_bytes()[..k]);
-                            return Err(Damage { read_while_holding, item: i, after_obtaining: held.len() - 1, expected: copy.clone(), got: vnet::json::show(&tmp[..k]) });
+                            return Err(Damage { read_while_holding, item: i, after_obtaining: held.len() - 1, expected: copy.clone(), got: vnet::json::show(&tmp[..k]), after_drop: dropped });
                         }
                     }
                 };
@@ -264,8 +268,7 @@ fn execute(case: &Case) -> Result<(usize, bool), Damage> {
                 // the stream is given up here, possibly before its end ...
             }
             // ... and what it handed out is still in use
-            let delivered_before = wire.borrow().bytes_delivered;
-            let _ = delivered_before;
+            dropped = true;
             reread!();
             let _ = held.len();
         }};
@@ -313,7 +316,10 @@ fn check(case: &Case, rep: &mut Report, group: &str) {
         Ok(Err(d)) => {
             let _ = group;
             let one_read = case.chunk_of.iter().all(|c| *c == 0);
-            let sig = if group == "available" {
+            let sig = if d.after_drop {
+                // nothing was asked of the stream any more: giving it up must not touch what it handed out
+                "C11/reply-stream-item-changed-when-the-stream-was-dropped"
+            } else if group == "available" {
                 "C11/reply-stream-item-invalidated-although-the-whole-burst-was-available-before-the-first-item"
             } else if one_read {
                 // every owed reply was in the buffer before the first item was handed out: whatever the stream
@@ -423,7 +429,16 @@ pub fn run(cfg: &Cfg) -> Report {
             (Vec::new(), false)
         };
         // every third same-read / available case gives the stream up early and goes on using the items
-        let stop_after = if group != "separate" && i % 3 == 1 { rng.range(1, n - 1) } else { 0 };
+        // (in the separate-read group: after exactly the replies of the first read, so that no read has happened
+        // while items were held - the next reply is waiting in the transport, not in the buffer)
+        let first_read = chunk_of.iter().filter(|c| **c == 0).count();
+        let stop_after = if group != "separate" && i % 3 == 1 {
+            rng.range(1, n - 1)
+        } else if group == "separate" && i % 3 == 1 && first_read < n {
+            first_read
+        } else {
+            0
+        };
         let mut case = Case { replies, chunk_of, pendings: if group == "available" { 0 } else { rng.below(2) }, via_proxy_stream, seed: cfg.seed ^ i, warmup, esc, stray, trailing, stop_after };
         if group == "available" {
             // The whole burst is in the transport before the first item is requested, but the receive buffer
